@@ -2,7 +2,7 @@
 from oblib import ob
 
 BOUNDS = {
-    "quick": "one struct type with int8, string-tagged int8, bool, string, []int8, map[string]int8, *int8, [2]bool, nested struct, []byte (base64), any, *struct; six shapes (every int8 + strings / populated containers / empty containers and nested pointer with every uint8 / untyped values behind the interface / every int8 through the string tag / symbolic slice element); every int8/uint8/bool value and every well-formed UTF-8 string of 1-2 bytes is covered symbolically; options StringifyNumbers x Deterministic.",
+    "quick": "one struct type with int8, string-tagged int8, bool, string, []int8, map[string]int8, *int8, [2]bool, nested struct, []byte (base64), any, *struct; six shapes (every int8 + strings / populated containers / empty containers and nested pointer with every uint8 / untyped values behind the interface / every int8 through the string tag / symbolic slice element); every int8/uint8/bool value and every well-formed UTF-8 string of 1-2 bytes is covered symbolically; options StringifyNumbers x Deterministic. Plus: every int64/uint64 as number, quoted number and map key (cvc5 int-blasting); [3]byte and []byte with symbolic contents under no option / FormatByteArrayAsArray alone / FormatBytesWithLegacySemantics alone / both; two-entry maps keyed by *string (1 symbolic byte each) and *int8 (all values). Outside: floats, time, format tags (gated off at this commit), other type graphs.",
     "thorough": "as quick with strings of up to 2 bytes in the string-carrying shapes and all StringifyNumbers x Deterministic combinations.",
 }
 ASSUMPTIONS = [
@@ -27,4 +27,6 @@ def obligations(tier):
             L.append(ob("wide/part=%d/stringify=%d" % (part, st), ".", "VerifC04Wide", [part, st], covers=["decoded"], solver="cvc5-int", timeout_ms=60000, max_seconds=1200))
     for opt in range(4):
         L.append(ob("bytes-options/opt=%d" % opt, ".", "VerifC04BytesOptions", [opt], covers=["decoded"], max_seconds=600))
+    for ik in (False, True):
+        L.append(ob("ptrkey/int=%d" % ik, ".", "VerifC04PtrKeyMap", [ik], covers=["decoded"], max_seconds=600))
     return L
